@@ -2,6 +2,9 @@
 """Seeded-change bookkeeping.
   seeded.py verify <wt-id> <name> <prop>   confirm the sub-agent's claims in its worktree, store under /verif/seeded/<name>
   seeded.py check <name> [CHECK ...]       apply the stored patch to /repo, run the checks (quick), undo it
+  seeded.py scratch <name> [CHECK ...]     same, on a scratch copy of /repo (EMBOSS_REPO), for use while other
+                                           runs are reading /repo
+Environment: SEEDED_SEED (default 0), SEEDED_TIER (default quick).
 """
 import glob, json, os, shutil, subprocess, sys
 
@@ -48,12 +51,23 @@ def verify(lid, name, prop):
     return 0
 
 
-def check(name, checks):
+def check(name, checks, scratch=False):
     d = os.path.join(VERIF, "seeded", name)
-    rc, out = sh("git -C /repo status --porcelain")
-    if out.strip():
-        print("refusing: /repo has uncommitted changes:\n" + out); return 2
-    rc, out = sh("git -C /repo apply %s/patch.diff" % d)
+    seed = os.environ.get("SEEDED_SEED", "0")
+    tier = os.environ.get("SEEDED_TIER", "quick")
+    envp = ""
+    tmp = None
+    if scratch:
+        import tempfile
+        tmp = tempfile.mkdtemp(prefix="emb-seeded-")
+        sh("rsync -a --exclude .git /repo/ %s/repo/" % tmp)
+        rc, out = sh("patch -p1 -s < %s/patch.diff" % d, tmp + "/repo")
+        envp = "EMBOSS_REPO=%s/repo " % tmp
+    else:
+        rc, out = sh("git -C /repo status --porcelain")
+        if out.strip():
+            print("refusing: /repo has uncommitted changes:\n" + out); return 2
+        rc, out = sh("git -C /repo apply %s/patch.diff" % d)
     if rc != 0:
         print("patch does not apply:", out); return 2
     results = {}
@@ -61,7 +75,7 @@ def check(name, checks):
         for c in checks:
             evf = os.path.join(VERIF, "evidence", c + ".json")
             saved = open(evf).read() if os.path.exists(evf) else None
-            rc, out = sh("./vcheck %s --tier quick" % c, VERIF)
+            rc, out = sh("%sVERIF_SEED=%s ./vcheck %s --tier %s" % (envp, seed, c, tier), VERIF)
             if saved is not None:
                 open(evf, "w").write(saved)
             mech = [l.strip() for l in out.splitlines() if l.strip().startswith("mechanism:")]
@@ -70,7 +84,10 @@ def check(name, checks):
             if not results[c]["caught"]:
                 print(out[-500:])
     finally:
-        sh("git -C /repo checkout -- .")
+        if scratch:
+            shutil.rmtree(tmp, ignore_errors=True)
+        else:
+            sh("git -C /repo checkout -- .")
     mp = os.path.join(d, "meta.json")
     meta = json.load(open(mp)) if os.path.exists(mp) else {}
     meta.setdefault("check_results", {}).update(results)
@@ -81,4 +98,4 @@ def check(name, checks):
 if __name__ == "__main__":
     if sys.argv[1] == "verify":
         sys.exit(verify(sys.argv[2], sys.argv[3], sys.argv[4]))
-    sys.exit(check(sys.argv[2], sys.argv[3:]))
+    sys.exit(check(sys.argv[2], sys.argv[3:], scratch=sys.argv[1] == "scratch"))
